@@ -178,7 +178,23 @@ def lake_build(targets):
     ok = p.returncode == 0
     if not ok and not fails:
         fails.append(('lake', 0, p.stdout[-2000:]))
+    if not ok and 'blfdriver' in targets:
+        # the executable model of this tree could not be built (a class it needs left the translator's grammar, ...): whatever binary
+        # is lying around is the model of an OLDER tree and must not be consulted; the implementation-only oracles go on
+        global _model_ok
+        _model_ok = False
+        try:
+            os.remove(driver_exe())
+        except OSError:
+            pass
     return ok, fails, p.stdout
+
+
+_model_ok = True
+
+
+def model_ok():
+    return _model_ok and os.path.exists(driver_exe())
 
 
 FORBIDDEN = re.compile(r'\b(sorry|admit|native_decide|bv_decide|implemented_by|unsafe)\b|^\s*axiom\s|maxHeartbeats\s+0', re.M)
